@@ -145,6 +145,21 @@ Band(e, d, k) ==
             [] k = 2 -> BandMid
             [] OTHER -> IF Tier = "thorough" THEN BandCore(d) \cup {32764, 32767, 65537} ELSE BandCore(d))
 
+(* FOREIGN frames: a well-formed header whose opcode is not defined for this expansion and         *)
+(* direction (a newer peer, a message this library does not know).  The message layout makes the   *)
+(* frame self-delimiting, so every reader - whatever it then reports - has consumed exactly the    *)
+(* announced bytes and decrypted exactly the header: the messages behind it are delivered as if    *)
+(* the foreign frame were not there.  The client opcode needs more than 16 bits on purpose.        *)
+ForeignOp(d) == IF d = "client" THEN 94207 ELSE 28671        \* 0x16FFF / 0x6FFF
+ForeignMsg(d) == [name |-> "?", opcode |-> ForeignOp(d), dir |-> d, kind |-> "foreign", len |-> 0, min |-> 0, cap |-> 16777215]
+ASSUME \A e \in Exps, d \in Dirs : \A m \in PoolOf(e, d) : m.opcode # ForeignOp(d)
+ForeignBand(k) ==
+    IF Mode = "c05" THEN (IF k <= 3 THEN {9} ELSE {})
+    ELSE (CASE k = 1 -> {0, 9, 32766, 65530}
+            [] k = 2 -> IF Tier = "thorough" THEN {9, 32766} ELSE {9}
+            [] OTHER -> IF Tier = "thorough" THEN {9} ELSE {})
+ForeignCands(e, d, k) == {c \in {ForeignMsg(d)} \X ForeignBand(k) : Expressible(e, d, c[2])}
+
 \* candidate (message, body length) pairs for direction d in a history of k frames
 Cands(e, d, k) ==
     {c \in PoolOf(e, d) \X Band(e, d, k) :
@@ -153,8 +168,10 @@ Cands(e, d, k) ==
         /\ Expressible(e, d, c[2])
         /\ (c[1].kind = "strs" => (k = 1 \/ c[2] > 30000))}      \* the second free message matters for large bodies
     \cup {c \in PoolOf(e, d) \X {0, 4, 8} : c[1].kind = "fixed" /\ c[2] = c[1].len /\ (Mode = "c05" => k < 4)}
+    \cup ForeignCands(e, d, k)
 
 ClientCap == 10240    \* policy: readers may refuse larger client messages (still consuming them)
+
 
 ---------------------------------------------------------------------------
 (* Actions.                                                                *)
@@ -181,19 +198,36 @@ Init ==
 
 \* The writer puts message m with a body of n bytes on the stream of direction d.
 WriteFrame(d, m, n) ==
-    /\ d \in dirs /\ m \in PoolOf(exp, d)
+    /\ d \in dirs /\ (m \in PoolOf(exp, d) \/ m = ForeignMsg(d))
     /\ n >= m.min /\ (m.kind = "fixed" => n = m.len)
     /\ Expressible(exp, d, n)                 \* enabled iff the header form can express the length
     /\ LET h == EncodeHeader(exp, d, m.opcode, n)
            f == [name |-> m.name, opcode |-> m.opcode, body |-> n, hdr |-> h, size |-> SizeOf(d, n),
                  at |-> wpos[d],
                  encAt |-> enc[d], encLen |-> IF crypt THEN Len(h) ELSE 0,   \* only header bytes are encrypted
-                 soft |-> (n > m.cap \/ (d = "client" /\ n > ClientCap))]
+                 soft |-> (m.kind # "foreign" /\ (n > m.cap \/ (d = "client" /\ n > ClientCap)))]
        IN /\ stream' = [stream EXCEPT ![d] = Append(@, f)]
           /\ order' = Append(order, <<d, Len(stream[d]) + 1>>)
           /\ wpos' = [wpos EXCEPT ![d] = @ + Len(h) + n]
           /\ enc' = [enc EXCEPT ![d] = @ + f.encLen]
     /\ UNCHANGED <<exp, dirs, entry, crypt, ri, rpos, delivered, dec, sw>>
+
+(* RUNT frames: bytes no writer produces - a size field smaller than the opcode field it counts    *)
+(* (0..OW-1), in the 2 byte form and, on the Wrath server stream, behind the 3 byte marker.  The   *)
+(* grammar still delimits them: there is no body (BodyFrom saturates), the opcode bytes follow the *)
+(* size field as always.  A reader must take the header and nothing else - and must not abort     *)
+(* (C03: decoding is total).  The opcode is the foreign one, so every entry point reports it.      *)
+RuntFrame(d, s, lg) ==
+    /\ d \in dirs /\ s < OW(d) /\ (lg => Var3(exp, d))
+    /\ LET h == (IF lg THEN <<128, 0, s>> ELSE <<0, s>>) \o LE(OW(d), ForeignOp(d))
+           f == [name |-> "?", opcode |-> ForeignOp(d), body |-> 0, hdr |-> h, size |-> s,
+                 at |-> wpos[d], encAt |-> enc[d], encLen |-> IF crypt THEN Len(h) ELSE 0, soft |-> FALSE]
+       IN /\ stream' = [stream EXCEPT ![d] = Append(@, f)]
+          /\ order' = Append(order, <<d, Len(stream[d]) + 1>>)
+          /\ wpos' = [wpos EXCEPT ![d] = @ + Len(h)]
+          /\ enc' = [enc EXCEPT ![d] = @ + f.encLen]
+    /\ UNCHANGED <<exp, dirs, entry, crypt, ri, rpos, delivered, dec, sw>>
+IsRunt(d, f) == f.size < OW(d)
 
 NameOf(d, op) ==
     IF \E m \in PoolOf(exp, d) : m.opcode = op
@@ -222,7 +256,9 @@ ReadFrame(d) ==
 AllDelivered == \A d \in Dirs : ri[d] = Len(stream[d])
 
 \* history generation: the k-th frame of a history is drawn from the candidates of histories of length >= k
-FrameAllowed(d, i, k) == \E c \in Cands(exp, d, k) : c[1].name = stream[d][i].name /\ c[2] = stream[d][i].body
+FrameAllowed(d, i, k) ==
+    \/ \E c \in Cands(exp, d, k) : c[1].name = stream[d][i].name /\ c[2] = stream[d][i].body /\ ~IsRunt(d, stream[d][i])
+    \/ IsRunt(d, stream[d][i]) /\ k <= 2
 
 Extend(k) ==
     /\ Len(order) < k /\ k <= MaxHist
@@ -231,6 +267,11 @@ Extend(k) ==
 
 Write          == ~crypt /\ Mode \in {"c02", "c05"} /\ Extend(Len(order) + 1)
 WriteEncrypted == crypt /\ Mode \in {"c02", "c05"} /\ Extend(Len(order) + 1)
+\* a runt as the first or second frame of a history of at most two (plain and encrypted)
+WriteRunt ==
+    /\ Mode = "c02" /\ Len(order) < 2
+    /\ \A j \in 1..Len(order) : FrameAllowed(order[j][1], order[j][2], 2)
+    /\ \E d \in dirs : \E s \in 0..(OW(d) - 1) : \E lg \in BOOLEAN : RuntFrame(d, s, lg)
 Read           == ~crypt /\ \E d \in Dirs : ReadFrame(d)
 ReadEncrypted  == crypt /\ \E d \in Dirs : ReadFrame(d)
 
@@ -251,7 +292,7 @@ SweepNext ==
     /\ delivered' = EmptyF /\ enc' = ZeroF /\ dec' = ZeroF
     /\ UNCHANGED <<exp, dirs, entry, crypt>>
 
-Next == Write \/ WriteEncrypted \/ Read \/ ReadEncrypted \/ SweepWrite \/ SweepNext
+Next == Write \/ WriteEncrypted \/ WriteRunt \/ Read \/ ReadEncrypted \/ SweepWrite \/ SweepNext
 
 Spec == Init /\ [][Next]_vars
 
@@ -271,10 +312,11 @@ HeaderExact ==
     \A d \in Dirs : \A i \in 1..Len(stream[d]) :
         LET f == stream[d][i]
             p == ParseHeader(exp, d, f.hdr)
-        IN /\ p.wf /\ p.opcode = f.opcode
-           /\ p.size = (Len(f.hdr) - (p.hlen - OW(d))) + f.body      \* bytes after the size field
-           /\ (Var3(exp, d) => ((Len(f.hdr) = 5) <=> (f.size > Thresh)))
-           /\ (~Var3(exp, d) => Len(f.hdr) = 2 + OW(d))
+        IN \/ IsRunt(d, f)                                           \* not written by a writer of this library
+           \/ /\ p.wf /\ p.opcode = f.opcode
+              /\ p.size = (Len(f.hdr) - (p.hlen - OW(d))) + f.body      \* bytes after the size field
+              /\ (Var3(exp, d) => ((Len(f.hdr) = 5) <=> (f.size > Thresh)))
+              /\ (~Var3(exp, d) => Len(f.hdr) = 2 + OW(d))
 
 \* the reader stands exactly at a frame boundary: after k reads it has consumed the first k frames
 Aligned ==
@@ -287,6 +329,17 @@ RoundTrip ==
     \A d \in Dirs : \A i \in 1..ri[d] :
         /\ delivered[d][i].name = stream[d][i].name
         /\ delivered[d][i].body = stream[d][i].body
+
+\* foreign frames are transparent: dropping them from what was written and from what was delivered
+\* leaves the same sequence of messages (a reader that reports an unknown opcode is still aligned)
+Known(sq) == SelectSeq(sq, LAMBDA x : x.name # "?")
+ForeignTransparent ==
+    \A d \in Dirs :
+        LET w == Known(SubSeq(stream[d], 1, ri[d]))
+            r == Known(delivered[d])
+        IN /\ Len(w) = Len(r)
+           /\ \A i \in 1..Len(w) : w[i].name = r[i].name /\ w[i].body = r[i].body /\ r[i].end = w[i].at + FrameLen(w[i])
+           /\ \A i \in 1..ri[d] : (stream[d][i].name = "?") <=> (delivered[d][i].name = "?")
 
 \* the reader's half is always at the keystream position at which the next frame was encrypted ...
 KeysAligned ==
